@@ -1,5 +1,5 @@
-(* C12/Proofs5.v — the bound of 1000 rounds is visible: a value with 1000 distinct (perfectly
-   resolvable) references is refused, because every round expands ONE distinct reference. *)
+(* C12/Proofs5.v — regression witnesses of the two repaired findings: 1000 distinct references in one value
+   resolve (C12-MANYREFS), a cycle that doubles per round is refused after 14 rounds (C12-EXPCYCLE). *)
 From Verif Require Import Common.Base C12.Model C12.Proofs1 C12.Proofs2 C12.Proofs3.
 From Coq Require Import Ascii.
 
@@ -43,43 +43,57 @@ Proof.
   intros H. unfold wf, w_tokens. cbn [wf_from]. split; [reflexivity|]. split; [discriminate|now apply w_wf].
 Qed.
 
-Lemma w_1000_refused : resolve_string w_def w_retrieve (flatten (w_tokens 1000)) = Err [ETooMany].
-Proof. vm_cast_no_check (eq_refl (@Err cv [ETooMany])). Qed.
-
-Lemma w_names_distinct : NoDup (w_names 1000).
+(* 1000 distinct references in one value resolve (regression of finding C12-MANYREFS, repaired by 536781a48:
+   before the repair this was the witness of expansion_refines_tokens_unbounded_refuted) *)
+Lemma many_refs_resolve :
+  resolve_string w_def w_retrieve (flatten (w_tokens 1000)) = Ok (CStr (sem w_val (w_tokens 1000))).
 Proof.
-  assert (H : forall l : list str, (fix nd (l : list str) : bool :=
-               match l with [] => true | x :: r => negb (existsb (str_eqb x) r) && nd r end) l = true -> NoDup l).
-  { induction l as [|x r IH]; intros Hl; [constructor|].
-    apply andb_true_iff in Hl as [H1 H2]. constructor; [|now apply IH].
-    intros Hin. apply negb_true_iff in H1.
-    assert (existsb (str_eqb x) r = true) by (apply existsb_exists; exists x; split; [exact Hin|apply str_eqb_refl]).
-    congruence. }
-  apply H. vm_cast_no_check (eq_refl true).
+  apply tokens_main.
+  - apply w_tokens_wf. vm_cast_no_check (eq_refl true).
+  - intros n _. reflexivity.
+  - left. reflexivity.
+  - assert (H : nrefs (w_tokens 1000) = 1000) by (vm_cast_no_check (eq_refl 1000)). rewrite H.
+    unfold max_expansions. apply Nat.leb_le. vm_compute. reflexivity.
 Qed.
 
 Lemma w_plain ts : plain w_val ts.
 Proof. intros n _. reflexivity. Qed.
 
-Lemma many_refs_refused :
-  wf w_def w_retrieve w_val (w_tokens 1000) /\
-  plain w_val (w_tokens 1000) /\
-  has_text (w_tokens 1000) = true /\
-  nrefs (w_tokens 1000) = 1000 /\
-  resolve_string w_def w_retrieve (flatten (w_tokens 1000)) = Err [ETooMany].
+(* ---- C12-EXPCYCLE (regression of finding C12-EXPCYCLE, repaired by 536781a48): a value that doubles per round is refused after a few rounds -------- *)
+Fixpoint trace_r (def : str) (retrieve : str -> str -> res retrieved) (fuel used rounds : nat) (v : cv) : res cv * nat :=
+  match fuel with
+  | 0 => (Err [ETooMany], rounds)
+  | S f =>
+      match expand_value def retrieve v with
+      | Err e => (Err e, rounds)
+      | Ok (v', changed) =>
+          if changed then
+            let used' := used + spent def retrieve v in
+            if max_expansions <? used' then (Err [ETooMany], S rounds) else trace_r def retrieve f used' (S rounds) v'
+          else (Ok v', S rounds)
+      end
+  end.
+
+Lemma trace_r_result def retrieve fuel : forall used rounds v,
+  fst (trace_r def retrieve fuel used rounds v) = expand_rec def retrieve fuel used v.
 Proof.
-  split; [apply w_tokens_wf; vm_cast_no_check (eq_refl true)|].
-  split; [apply w_plain|].
-  split; [reflexivity|]. split; [vm_cast_no_check (eq_refl 1000)|exact w_1000_refused].
+  induction fuel as [|f IH]; intros used rounds v; [reflexivity|]. cbn [trace_r expand_rec].
+  destruct (expand_value def retrieve v) as [[v' c]|e]; [|reflexivity].
+  destruct c; [|reflexivity]. destruct (max_expansions <? used + spent def retrieve v); [reflexivity|apply IH].
 Qed.
 
-(* one reference fewer and the same string resolves (an instance of the general theorem) *)
-Lemma just_below_resolves :
-  resolve_string w_def w_retrieve (flatten (w_tokens 999)) = Ok (CStr (sem w_val (w_tokens 999))).
+Definition dbl_text : str := ref_text w_pfx ++ ref_text w_pfx.
+Definition dbl_retrieve (sch opq : str) : res retrieved := Ok (mkRet (CStr dbl_text) None).
+
+Definition doubling_outcome : res cv * nat :=
+  Eval vm_compute in trace_r w_def dbl_retrieve (S (S max_expansions)) 0 0 (CStr (ref_text w_pfx)).
+
+Lemma doubling_refused_early :
+  expand_rec w_def dbl_retrieve (S (S max_expansions)) 0 (CStr (ref_text w_pfx)) = Err [ETooMany] /\
+  snd doubling_outcome = 14.
 Proof.
-  apply tokens_main.
-  - apply w_tokens_wf. vm_cast_no_check (eq_refl true).
-  - apply w_plain.
-  - left. reflexivity.
-  - assert (H : nrefs (w_tokens 999) = 999) by (vm_cast_no_check (eq_refl 999)). rewrite H. lia.
+  split; [|reflexivity]. rewrite <- (trace_r_result w_def dbl_retrieve _ 0 0).
+  change (trace_r w_def dbl_retrieve (S (S max_expansions)) 0 0 (CStr (ref_text w_pfx))) with doubling_outcome.
+  reflexivity.
 Qed.
+
